@@ -180,6 +180,12 @@ def exhaustive(tier):
                 if route == "iadd-own-value" and kind not in ("list", "typed-list"):
                     continue
                 yield {"mode": "same-as-default", "kind": kind, "place": place, "route": route}
+    # a constant default on a list of CONFIGURATIONS (given as maps): an accepted assignment to a field of a default item,
+    # or an in-place edit of the list, through one configuration - every other configuration and every reset show the declared default
+    for configtype in (False, True):
+        for place in ("root", "nested"):
+            for edit in ("item-field", "item-nested-field", "append", "pop", "item-field+reset-item"):
+                yield {"mode": "config-list-default", "configtype": configtype, "place": place, "edit": edit}
     # a nested section that became user-defined AS A WHOLE (map assignment, load, constructor keyword), then its leaves are
     # reset one by one: each reset touches that leaf only - the section's own mark included
     for how in ("assign-map", "load_tree", "loads-json", "ctor", "setitem-map"):
@@ -259,6 +265,55 @@ def _same_as_default_case(case, R):
     R.check(cc.is_value_defined(owner, "f") is True, "defined-iff", "same-as-default:" + route,
             lambda: "%s given its own default value %r through %s: not reported user-defined" % (".".join(path), value, route))
     R.check(cc.is_value_defined(cfg, "other") is False, "defined-iff", "same-as-default:others", "another field became user-defined")
+
+
+def _config_list_default_case(case, R):
+    cc = sandbox._state["cc"]
+    item = cc.Schema()
+    item.name = cc.StringField(default="n")
+    item.port = cc.IntField(default=80)
+    item.tls.level = cc.IntField(default=1)
+    Item = cc.make_type(item, "DefaultedItem", module=__name__) if case["configtype"] else item
+    declared = [{"name": "a", "port": 1, "tls": {"level": 2}}, {"name": "b", "port": 2, "tls": {"level": 3}}]
+    import copy
+    schema = cc.Schema()
+    holder = schema if case["place"] == "root" else schema.site
+    holder.servers = cc.ListField(Item, default=copy.deepcopy(declared))
+    schema.other = cc.IntField(default=7)
+    owner = (lambda c: c) if case["place"] == "root" else (lambda c: c.site)
+    R.label("config-list-default", "config-list-default:" + case["edit"])
+    R.nontrivial = True
+
+    def view(cfg):
+        v = owner(cfg).servers
+        return None if v is None else [{"name": s.name, "port": s.port, "tls": {"level": s.tls.level}} for s in v]
+    early, first = schema(), schema()
+    if not R.check(view(first) == declared and view(early) == declared, "fresh-default", "config-list:first", lambda: "a fresh configuration shows %r, declared %r" % (view(first), declared)):
+        return
+    edit = case["edit"]
+    lst = owner(first).servers
+    if edit == "item-field":
+        lst[0].port = 9999
+    elif edit == "item-nested-field":
+        lst[1].tls.level = 9999
+    elif edit == "append":
+        lst.append({"name": "c"})
+    elif edit == "pop":
+        lst.pop()
+    else:
+        lst[0].port = 9999
+        cc.reset_value(lst[0], "port")
+        lst[0].name = "edited"
+    sig = "config-list:" + edit
+    R.check(view(early) == declared, "fresh-default", sig + ":earlier-config", lambda: "editing one configuration's default list of configurations changed a configuration built earlier: %r" % (view(early),))
+    second = schema()
+    R.check(view(second) == declared, "fresh-default", sig + ":later-config", lambda: "a configuration built after another one's default items were edited shows %r (declared %r)" % (view(second), declared))
+    R.check(cc.is_value_defined(owner(second), "servers") is False, "fresh-default", sig + ":defined", "a fresh configuration reports the list user-defined")
+    owner(first).servers = [{"name": "x", "port": 5}]
+    cc.reset_value(owner(first), "servers")
+    R.check(view(first) == declared and cc.is_value_defined(owner(first), "servers") is False, "reset", sig,
+            lambda: "reset shows %r (declared %r), user-defined=%r" % (view(first), declared, cc.is_value_defined(owner(first), "servers")))
+    R.check(first.other == 7 and second.other == 7, "reset", "config-list:others", "another field changed")
 
 
 def _section_reset_case(case, R):
@@ -588,6 +643,8 @@ def _varying_case(case, R):
 def run_case(case, R):
     if case.get("mode") == "varying-default":
         return _varying_case(case, R)
+    if case.get("mode") == "config-list-default":
+        return _config_list_default_case(case, R)
     if case.get("mode") == "section-reset":
         return _section_reset_case(case, R)
     if case.get("mode") == "unmentioned-sub":
